@@ -9,8 +9,8 @@ diff="$out/change$k.diff"; demo="$out/demo$k.py"; note="$out/note$k.txt"
 scratch="$(mktemp -d /tmp/seed.XXXXXX)"
 trap 'rm -rf "$scratch"' EXIT
 mkdir -p "$scratch/clean" "$scratch/mut"
-git -C /repo archive HEAD | tar -x -C "$scratch/clean"
-git -C /repo archive HEAD | tar -x -C "$scratch/mut"
+git -C /repo archive "${SEED_BASE:-HEAD}" | tar -x -C "$scratch/clean"
+git -C /repo archive "${SEED_BASE:-HEAD}" | tar -x -C "$scratch/mut"
 if ! (cd "$scratch/mut" && git apply --unsafe-paths --directory="$scratch/mut" "$diff" 2>/dev/null || patch -p1 --quiet < "$diff"); then echo "RESULT $sid: PATCH-DOES-NOT-APPLY"; exit 3; fi
 tests=$(cd "$scratch/mut" && timeout 300 /venv/bin/python -B -m pytest -q -p no:cacheprovider --continue-on-collection-errors 2>&1 | tail -1)
 echo "tests with change: $tests"
